@@ -722,7 +722,7 @@ func (h *harness) checkSpec(spec *Spec, r *hx.Rand, nDocs int, sample bool) {
 			// a quarter of the requests on S enable, next to F, feature names the schema never mentions
 			// (one of them extending a real name) or repeat an enabled name
 			var pad []string
-			if os.Getenv("C13_PAD") != "" && r.Chance(1, 4) {
+			if r.Chance(1, 4) {
 				pad = drawPad(r, feats, F)
 				run.Count("request:padded-feature-set")
 			}
@@ -1266,12 +1266,17 @@ func main() {
 		}
 	}
 	const staged = true
+	// modes 3 and 4 (rebuild of the same objects after an edit)
+	lastMode := 2
+	if os.Getenv("C13_REBUILD") != "" {
+		lastMode = 4
+	}
 	for _, spec := range handSpecs() {
 		h.checkSpec(spec, run.Rand.Fork(), run.Scale(6, 30), false)
 		run.Count("hand-written-schema")
 		// the same definition put together in stages (Spec.Staged): features assigned after the wrappers
 		// exist / on a clone
-		for mode := 1; staged && mode <= 2; mode++ {
+		for mode := 1; staged && mode <= lastMode; mode++ {
 			sp := spec.clone()
 			sp.Staged = mode
 			h.checkSpec(sp, run.Rand.Fork(), run.Scale(2, 10), false)
@@ -1284,14 +1289,14 @@ func main() {
 		r := run.Rand.Fork()
 		spec := genSpec(r)
 		if staged {
-			spec.Staged = i % 3
+			spec.Staged = i % (lastMode + 1)
 			run.Count(fmt.Sprintf("staged-definition:%d", spec.Staged))
 		}
 		h.checkSpec(spec, r, nDocs, i < 40)
 	}
 	// the construction-rule oracle: every fixed leaky definition must be refused
 	for _, spec0 := range leakySpecs() {
-		for mode := 0; mode <= 2 && (staged || mode == 0); mode++ {
+		for mode := 0; mode <= lastMode && (staged || mode == 0); mode++ {
 			spec := spec0.clone()
 			spec.Staged = mode // however the definition is put together
 			w := &world{orig: expand(spec), F: map[string]bool{}}
@@ -1332,7 +1337,7 @@ func main() {
 		}
 		// the same definition put together in stages: features assigned after the wrappers exist (1), or
 		// by the API's PreprocessGraphQLSchemaDefinition hook on the clone it is handed (2)
-		for mode := 1; staged && mode <= 2; mode++ {
+		for mode := 1; staged && mode <= lastMode; mode++ {
 			sp := ac.spec.clone()
 			sp.Staged = mode
 			h.extra = ac.queries
@@ -1361,7 +1366,7 @@ func main() {
 			continue // every third one has a subscription root (events over the sockets)
 		}
 		if staged {
-			spec.Staged = i % 3
+			spec.Staged = i % (lastMode + 1)
 		}
 		if _, err := buildSchema(spec, &world{orig: expand(spec), F: map[string]bool{}}); err != nil {
 			continue
